@@ -118,6 +118,22 @@ type c20Dir struct {
 type c20Case struct {
 	Kernel bool     `json:"kernel,omitempty"` // the deterministic sub-check on $VERIF_REPO/kernel
 	Dirs   []c20Dir `json:"dirs,omitempty"`
+	// GoMod (non-zero): the tree has a go.mod at its top that declares the kernel's module path
+	// in one of the spellings the go tool accepts (index into c20GoMods + 1). However the file
+	// spells it, the destination of a redirect is the function's import-path name.
+	GoMod int `json:"gomod,omitempty"`
+}
+
+const c20KernelModule = "github.com/ProjectSerenity/firefly/kernel"
+
+var c20GoMods = []string{
+	"module " + c20KernelModule + "\n\ngo 1.17\n",
+	"module \"" + c20KernelModule + "\"\n\ngo 1.17\n",
+	"module `" + c20KernelModule + "`\n",
+	"module (\n\t" + c20KernelModule + "\n)\n\ngo 1.17\n",
+	"// the kernel proper\nmodule " + c20KernelModule + " // canonical path\n\ngo 1.17\n",
+	"go 1.17\n\nmodule\t" + c20KernelModule + "\n",
+	"module " + c20KernelModule + "\r\n\r\ngo 1.17\r\n",
 }
 
 type c20Entry struct{ Src, Dst string }
@@ -581,6 +597,11 @@ func c20Classify(c c20Case) (nontrivial bool, labels []string) {
 	if lookalikes == 0 {
 		add("no-lookalike")
 	}
+	if c.GoMod > 1 {
+		add("go.mod-with-the-module-path-in-an-unusual-spelling")
+	} else if c.GoMod == 1 {
+		add("go.mod-present")
+	}
 	for l := range set {
 		labels = append(labels, l)
 	}
@@ -988,6 +1009,11 @@ func c20Run(c c20Case) *vlib.Failure {
 			}
 		}
 	}
+	if c.GoMod > 0 && c.GoMod <= len(c20GoMods) {
+		if err := os.WriteFile(filepath.Join(root, "go.mod"), []byte(c20GoMods[c.GoMod-1]), 0o644); err != nil {
+			panic("c20: write: " + err.Error())
+		}
+	}
 	reps := c20Reps(goFiles)
 	if bytesWritten > 100<<10 && reps > 6 {
 		reps = 6 // trees with generated tables: a build costs milliseconds
@@ -1302,6 +1328,9 @@ func c20GenCase(t *rapid.T) c20Case {
 			d.Files = append(d.Files, c20GenFile(t, p, names, idents))
 		}
 		c.Dirs = append(c.Dirs, d)
+	}
+	if rapid.IntRange(0, 2).Draw(t, "hasgomod") == 0 {
+		c.GoMod = rapid.IntRange(1, len(c20GoMods)).Draw(t, "gomod")
 	}
 	return c
 }
